@@ -370,17 +370,65 @@ func (g *agg) print(name string, nres int) {
 }
 
 // entry: one function (or one instantiation of a generic function; cont = further instantiation of
-// the previous entry's function). lo/n: input dimensions, first = outermost. glob: index of the
-// dimension that selects the state of the globals, or -1.
+// the previous entry's function). lo/n: input dimensions, first = outermost; kinds: one letter per
+// dimension (G = state of the globals, not an argument; k = int argument). The functions are
+// called through reflect.Value.Call: no per-function driver code has to be compiled.
 type entry struct {
-	name string
-	nres int
-	cont bool
-	glob int
-	lo   []int
-	n    []int
-	call func(v []int, g *agg, vec int)
-	cmps []func(v []int)
+	name  string
+	fn    any
+	cont  bool
+	lo, n []int
+	kinds string
+	cmp   any // function with the same parameters containing the observed comparisons, or nil
+}
+
+func mk(kind byte, j int) any {
+	switch kind {
+	case 'P':
+		return mkP(j)
+	case 'Q':
+		return mkQ(j)
+	case 'D':
+		return mkPP(j)
+	case 'S':
+		return mkS(j)
+	case 'N':
+		return mkNS(j)
+	case 'M':
+		return mkM(j)
+	case 'C':
+		return mkC(j)
+	case 'F':
+		return mkF(j)
+	case 'A':
+		return mkA(j)
+	case 'I':
+		if v := mkI(j); v != nil {
+			return v
+		}
+		return nil
+	case 'U':
+		return mkU(j)
+	case 'k':
+		return j
+	}
+	panic("kind")
+}
+
+func args(t reflect.Type, kinds string, v []int) []reflect.Value {
+	var a []reflect.Value
+	for d := 0; d < len(kinds); d++ {
+		if kinds[d] == 'G' {
+			setG(v[d])
+			continue
+		}
+		x := reflect.New(t.In(len(a))).Elem() // zero value of the parameter type (nil interface for A, I)
+		if val := mk(kinds[d], v[d]); val != nil {
+			x.Set(reflect.ValueOf(val))
+		}
+		a = append(a, x)
+	}
+	return a
 }
 
 func main() {
@@ -392,15 +440,25 @@ func main() {
 			g = agg{}
 			vec = 0
 		}
+		fn := reflect.ValueOf(e.fn)
 		v := make([]int, len(e.n))
 		copy(v, e.lo)
 		for {
-			if e.glob >= 0 {
-				setG(v[e.glob])
-			}
-			run(&g, func() { e.call(v, &g, vec) })
-			for _, c := range e.cmps {
-				run(nil, func() { c(v) })
+			run(&g, func() {
+				outs := fn.Call(args(fn.Type(), e.kinds, v))
+				for i, o := range outs {
+					in := 0
+					if o.Kind() == reflect.Interface && !o.IsNil() {
+						in = inner(o.Interface())
+					}
+					g.rec(i, vec, o.IsNil(), in)
+				}
+			})
+			if e.cmp != nil {
+				run(nil, func() {
+					c := reflect.ValueOf(e.cmp)
+					c.Call(args(c.Type(), e.kinds, v))
+				})
 			}
 			vec++
 			// next vector (last dimension fastest)
@@ -417,7 +475,7 @@ func main() {
 			}
 		}
 		if ei+1 == len(table) || !table[ei+1].cont {
-			g.print(e.name, e.nres)
+			g.print(e.name, fn.Type().NumOut())
 		}
 	}
 	for id, b := range lib.ObsTab {
@@ -500,18 +558,11 @@ func (fn *c15Fn) describeVec(vec int) string {
 
 var c15Mk = [...]string{kP: "mkP", kQ: "mkQ", kPP: "mkPP", kS: "mkS", kNS: "mkNS", kM: "mkM", kC: "mkC", kF: "mkF", kA: "mkA", kI: "mkI", kU: "mkU"}
 
-// cmpFn describes an observed comparison of a call result with nil (for SA4023).
-type c15Cmp struct {
-	Name  string
-	Fn    *c15Fn
-	Res   int
-	Neq   bool
-	ObsID int
-	Line  int // 1-based line in client.go
-}
+var c15KindLetter = [...]byte{kP: 'P', kQ: 'Q', kPP: 'D', kS: 'S', kNS: 'N', kM: 'M', kC: 'C', kF: 'F', kA: 'A', kI: 'I', kU: 'U'}
 
-// c15DriverFor writes the table entries for one function (and its companion, and its comparison functions).
-func c15DriverFor(b *strings.Builder, fn *c15Fn, cmps []*c15Cmp) {
+// c15DriverFor writes the table entries for one function (and its companion); cmp is the name of
+// its comparison function in package client ("" if none).
+func c15DriverFor(b *strings.Builder, fn *c15Fn, cmp string) {
 	name := fn.Spec.Name
 	targets := []string{name}
 	if fn.Mut != 0 {
@@ -524,9 +575,8 @@ func c15DriverFor(b *strings.Builder, fn *c15Fn, cmps []*c15Cmp) {
 			insts = 2
 		}
 		for inst := 0; inst < insts; inst++ {
-			var args, lo, n []string
-			glob := -1
-			vi := 0
+			var lo, n []string
+			kinds := ""
 			for _, dim := range dims {
 				if dim.Kind == -1 {
 					continue
@@ -535,44 +585,25 @@ func c15DriverFor(b *strings.Builder, fn *c15Fn, cmps []*c15Cmp) {
 				n = append(n, fmt.Sprint(dim.N))
 				switch dim.Kind {
 				case -2:
-					glob = vi
+					kinds += "G"
 				case -3, -4:
-					args = append(args, fmt.Sprintf("v[%d]", vi))
+					kinds += "k"
 				case kX:
-					args = append(args, fmt.Sprintf("%s(v[%d])", []string{"mkP", "mkQ"}[inst], vi))
+					kinds += []string{"P", "Q"}[inst]
 				default:
-					args = append(args, fmt.Sprintf("%s(v[%d])", c15Mk[dim.Kind], vi))
+					kinds += string(c15KindLetter[dim.Kind])
 				}
-				vi++
 			}
 			instS := ""
 			if fn.Generic {
 				instS = []string{"[*lib.T]", "[lib.NP]"}[inst]
 			}
-			var rs []string
-			for i := range fn.Spec.Res {
-				rs = append(rs, fmt.Sprintf("r%d", i))
+			cmpS := "nil"
+			if ti == 0 && cmp != "" {
+				cmpS = "client." + cmp + instS
 			}
-			fmt.Fprintf(b, "\t{%q, %d, %v, %d, []int{%s}, []int{%s}, func(v []int, g *agg, vec int) {\n\t\t%s := %s.%s%s(%s)\n",
-				tname, len(fn.Spec.Res), inst > 0, glob, strings.Join(lo, ", "), strings.Join(n, ", "),
-				strings.Join(rs, ", "), fn.Spec.Pkg, tname, instS, strings.Join(args, ", "))
-			for i, k := range fn.Spec.Res {
-				in := "0"
-				if c15IsIface(k) {
-					in = fmt.Sprintf("inner(r%d)", i)
-				}
-				fmt.Fprintf(b, "\t\tg.rec(%d, vec, r%d == nil, %s)\n", i, i, in)
-			}
-			b.WriteString("\t}, ")
-			if ti == 0 && len(cmps) > 0 {
-				b.WriteString("[]func(v []int){\n")
-				for _, c := range cmps {
-					fmt.Fprintf(b, "\t\tfunc(v []int) { client.%s%s(%s) },\n", c.Name, instS, strings.Join(args, ", "))
-				}
-				b.WriteString("\t}},\n")
-			} else {
-				b.WriteString("nil},\n")
-			}
+			fmt.Fprintf(b, "\t{%q, %s.%s%s, %v, []int{%s}, []int{%s}, %q, %s},\n",
+				tname, fn.Spec.Pkg, tname, instS, inst > 0, strings.Join(lo, ", "), strings.Join(n, ", "), kinds, cmpS)
 		}
 	}
 }
@@ -586,16 +617,15 @@ type c15Module struct {
 	Dir     string
 	Fns     []*c15Fn
 	ByName  map[string]*c15Fn
-	Obs     []c15ObsInfo              // by observation id
-	ObsLine map[string]map[int]int    // file base name -> 1-based line -> observation id
-	Cmps    map[string][]*c15Cmp      // by function name
-	Source  map[string]string         // function name -> source text
+	Obs     []c15ObsInfo           // by observation id
+	ObsLine map[string]map[int]int // file base name -> 1-based line -> observation id
+	Source  map[string]string      // function name -> source text
 }
 
 // c15WriteModule writes go.mod, lib/lib.go, client/client.go and drv/main.go for the pool plus fns.
 func c15WriteModule(dir string, fns []*c15Fn) (*c15Module, error) {
 	mod := &c15Module{Dir: dir, ByName: map[string]*c15Fn{}, ObsLine: map[string]map[int]int{"lib.go": {}, "client.go": {}},
-		Cmps: map[string][]*c15Cmp{}, Source: map[string]string{}}
+		Source: map[string]string{}}
 	all := append(append([]*c15Fn(nil), c15Pool...), fns...)
 	mod.Fns = all
 	var lib, client, drv strings.Builder
@@ -633,61 +663,62 @@ func c15WriteModule(dir string, fns []*c15Fn) (*c15Module, error) {
 		mod.Source[fn.Spec.Name] = src
 		w.WriteString(src)
 		w.WriteString("\n")
-		// comparison functions (always in client): F(args) == nil, F(args) != nil for interface results
-		var cmps []*c15Cmp
-		for ri, k := range fn.Spec.Res {
-			if !c15IsIface(k) {
-				continue
-			}
-			for _, neq := range []bool{false, true} {
-				c := &c15Cmp{Fn: fn, Res: ri, Neq: neq, ObsID: obs}
-				op, tag := "==", "e"
-				if neq {
-					op, tag = "!=", "n"
-				}
-				c.Name = fmt.Sprintf("C%s%s%d", fn.Spec.Name, tag, ri)
-				var sig, args []string
-				for _, pk := range fn.Params {
-					sig = append(sig, c15Var[pk]+" "+c15Q(c15Type[pk], "client"))
-					args = append(args, c15Var[pk])
-				}
-				if fn.UsesK {
-					sig = append(sig, "k int")
-					args = append(args, "k")
-				}
-				if fn.UsesFuel {
-					sig = append(sig, "fuel int")
-					args = append(args, "fuel")
-				}
-				tp, inst := "", ""
-				if fn.Generic {
-					tp, inst = "[X lib.PT]", "[X]"
-				}
-				callee := fn.Spec.Name + inst
-				if fn.Spec.Pkg == "lib" {
-					callee = "lib." + callee
-				}
-				fmt.Fprintf(&client, "func %s%s(%s) {\n", c.Name, tp, strings.Join(sig, ", "))
-				call := callee + "(" + strings.Join(args, ", ") + ")"
-				if len(fn.Spec.Res) == 1 {
-					c.Line = strings.Count(client.String(), "\n") + 1
-					fmt.Fprintf(&client, "\tif %s %s nil {\n", call, op)
-				} else {
-					vars := []string{"_", "_"}
-					vars[ri] = "r"
-					fmt.Fprintf(&client, "\t%s := %s\n", strings.Join(vars, ", "), call)
-					c.Line = strings.Count(client.String(), "\n") + 1
-					fmt.Fprintf(&client, "\tif r %s nil {\n", op)
-				}
-				fmt.Fprintf(&client, "\t\tlib.Obs(%d, 1)\n\t} else {\n\t\tlib.Obs(%d, 2)\n\t}\n}\n\n", obs, obs)
-				mod.ObsLine["client.go"][c.Line] = obs
-				mod.Obs = append(mod.Obs, c15ObsInfo{fn, fmt.Sprintf("cmp:%d:%s", ri, op)})
-				obs++
-				cmps = append(cmps, c)
-			}
+		// comparison function (always in client): F(args) == nil and F(args) != nil for every interface result
+		cmpName := ""
+		hasIface := false
+		for _, k := range fn.Spec.Res {
+			hasIface = hasIface || c15IsIface(k)
 		}
-		mod.Cmps[fn.Spec.Name] = cmps
-		c15DriverFor(&drv, fn, cmps)
+		if hasIface {
+			cmpName = "C" + fn.Spec.Name
+			var sig, args []string
+			for _, pk := range fn.Params {
+				sig = append(sig, c15Var[pk]+" "+c15Q(c15Type[pk], "client"))
+				args = append(args, c15Var[pk])
+			}
+			if fn.UsesK {
+				sig = append(sig, "k int")
+				args = append(args, "k")
+			}
+			if fn.UsesFuel {
+				sig = append(sig, "fuel int")
+				args = append(args, "fuel")
+			}
+			tp, inst := "", ""
+			if fn.Generic {
+				tp, inst = "[X lib.PT]", "[X]"
+			}
+			callee := fn.Spec.Name + inst
+			if fn.Spec.Pkg == "lib" {
+				callee = "lib." + callee
+			}
+			call := callee + "(" + strings.Join(args, ", ") + ")"
+			fmt.Fprintf(&client, "func %s%s(%s) {\n", cmpName, tp, strings.Join(sig, ", "))
+			nline := strings.Count(client.String(), "\n")
+			for ri, k := range fn.Spec.Res {
+				if !c15IsIface(k) {
+					continue
+				}
+				for _, op := range []string{"==", "!="} {
+					if len(fn.Spec.Res) == 1 {
+						fmt.Fprintf(&client, "\tif %s %s nil {\n", call, op)
+						nline++
+					} else {
+						vars := []string{"_", "_"}
+						vars[ri] = fmt.Sprintf("r%d", obs)
+						fmt.Fprintf(&client, "\t%s := %s\n\tif r%d %s nil {\n", strings.Join(vars, ", "), call, obs, op)
+						nline += 2
+					}
+					mod.ObsLine["client.go"][nline] = obs
+					fmt.Fprintf(&client, "\t\tlib.Obs(%d, 1)\n\t} else {\n\t\tlib.Obs(%d, 2)\n\t}\n", obs, obs)
+					nline += 4
+					mod.Obs = append(mod.Obs, c15ObsInfo{fn, fmt.Sprintf("cmp:%d:%s", ri, op)})
+					obs++
+				}
+			}
+			client.WriteString("}\n\n")
+		}
+		c15DriverFor(&drv, fn, cmpName)
 	}
 	drv.WriteString("}\n")
 	files := map[string]string{
@@ -832,9 +863,9 @@ func c15Analyze(mod *c15Module, cacheDir string) (a *c15Analysis, infra string, 
 }
 
 type c15ResTruth struct {
-	Nil, NonNil           int
-	FirstNil, FirstNonNil int
-	InNil, InNonNil       int
+	Nil, NonNil               int
+	FirstNil, FirstNonNil     int
+	InNil, InNonNil           int
 	FirstInNil, FirstInNonNil int
 }
 
@@ -938,17 +969,17 @@ type c15Finding struct {
 }
 
 type c15Stats struct {
-	functions, executions, normal     int64
-	specs                             int64
-	nontrivial                        int64
-	neverNil, alwaysNil, maybeGlobal  int64
-	innerNever, innerAlways           int64
-	impFacts, impNontrivial           int64
-	sa4023, sa4023Cmp, sa4023Body     int64
-	obsBoth, obsSeen                  int64
-	refutable                         int64 // facts for which at least one normal execution exists
-	noNormal                          int64
-	byCat                             map[string]int64
+	functions, executions, normal    int64
+	specs                            int64
+	nontrivial                       int64
+	neverNil, alwaysNil, maybeGlobal int64
+	innerNever, innerAlways          int64
+	impFacts, impNontrivial          int64
+	sa4023, sa4023Cmp, sa4023Body    int64
+	obsBoth, obsSeen                 int64
+	refutable                        int64 // facts for which at least one normal execution exists
+	noNormal                         int64
+	byCat                            map[string]int64
 }
 
 // c15Judge compares facts and SA4023 reports of one module with the ground truth. only, if non-nil,
@@ -1286,7 +1317,7 @@ func TestVerifC15(t *testing.T) {
 	var nextMu sync.Mutex
 	nextID := 0
 	var secPerFn float64 // exponentially smoothed wall seconds per function (incl. the fixed cost per batch)
-	const fixedFns = 120  // a batch costs about as much as this many functions on top of its own
+	const fixedFns = 120 // a batch costs about as much as this many functions on top of its own
 	next := func() (batch, bool) {
 		nextMu.Lock()
 		defer nextMu.Unlock()
@@ -1436,11 +1467,19 @@ func TestVerifC15(t *testing.T) {
 
 	// samples: the first function of a few different flavours
 	want := []func(sp c15Spec) bool{
-		func(sp c15Spec) bool { return len(sp.Ops) == 2 && sp.Ops[0] != sp.Ops[1] && strings.HasPrefix(sp.Ops[0], "a=") },
-		func(sp c15Spec) bool { return len(sp.Res) == 2 && len(sp.Ops) == 2 && strings.HasPrefix(sp.Ops[1], "call:") },
-		func(sp c15Spec) bool { return sp.Shape == 3 && len(sp.Ops) == 1 && strings.HasPrefix(sp.Ops[0], "tswitch") },
+		func(sp c15Spec) bool {
+			return len(sp.Ops) == 2 && sp.Ops[0] != sp.Ops[1] && strings.HasPrefix(sp.Ops[0], "a=")
+		},
+		func(sp c15Spec) bool {
+			return len(sp.Res) == 2 && len(sp.Ops) == 2 && strings.HasPrefix(sp.Ops[1], "call:")
+		},
+		func(sp c15Spec) bool {
+			return sp.Shape == 3 && len(sp.Ops) == 1 && strings.HasPrefix(sp.Ops[0], "tswitch")
+		},
 		func(sp c15Spec) bool { return len(sp.Ops) == 3 && sp.Ops[2] == "rec" && sp.Pkg == "client" },
-		func(sp c15Spec) bool { return len(sp.Ops) == 3 && sp.Res[0] == kS && strings.HasPrefix(sp.Ops[1], "s=append") },
+		func(sp c15Spec) bool {
+			return len(sp.Ops) == 3 && sp.Res[0] == kS && strings.HasPrefix(sp.Ops[1], "s=append")
+		},
 	}
 	got := make([]bool, len(want))
 	ns := 0
